@@ -68,6 +68,26 @@ CHECKS = {
             "Trusted: Floyd-Warshall reference (refmodel/graph.rs). Graphs beyond 5 vertices only via structured families.", "§4.18"),
 }
 
+# what rounds 7 and 8 of the seeded changes added to the enumerations (appended to the level text)
+ADDED = {
+    "C01": " Also: the uneven line with edges recorded shorter than the straight line (inconsistent estimate) under plain A*, forward and reverse; search algorithms and limits are built from their configuration sections.",
+    "C03": " Also: an application layer (speed, heading and turn-delay tables from files, units as configuration strings, per-edge JSON records and summary) on every 30th network; heading rows without a departure heading (blank cell, missing column, through serde in the core worlds); plain A* on the short-length line family.",
+    "C04": " Also: every single restricted turn under plain A* on the uneven line with edges recorded shorter than the straight line (a vertex reached again more cheaply after it was expanded).",
+    "C05": " Also: an application layer on every 40th network (road-class and vehicle-restriction files combined, plain/gzip graph files, the optional n_edges / n_vertices keys in all four combinations).",
+    "C07": " Also: every sum configuration with its weights scaled by 1e-12 and 3e-14 (positive sums far below the floor are charged as they are), compared relative to their own size.",
+    "C08": " Also: the energy model's own time unit as an axis; cache keys of two decimals over an edge alphabet whose grades are whole key steps around zero (all histories up to length 3, every vehicle type, synthetic and bundled models).",
+    "C10": " Also: the configuration route - every limit kind alone, combined and nested, its type names in four letter cases, built by TerminationModelBuilder and probed on an 8 x 8 grid of (tree size, iteration) against the limit it names; reference pop count for the iteration limit.",
+    "C11": " Also: query overrides that change the unit of a model feature (next unit of the same kind), through SearchApp::build_search_instance.",
+    "C12": " Also: route and tree rendered as wkt / wkb / geo_json / json; the uuid output plugin ahead of the route renderer and behind a tree-only renderer; identical origin and destination ids at the first, last, one past, two past and far past the last vertex; long ASCII and multi-byte strings as values and names.",
+    "C13": " Also: the clause 'first route no dearer than what the underlying search alone returns' in every world (turn delays included); a never-firing criterion in the quick tier; for Yen's a six-vertex corridor family (0-1-2-5 plus every subset of ten further edges) under k = 4 (quick) and k = 3 / 4 (thorough), which reaches the second round of its outer loop.",
+    "C14": " Also: declared speed / rate units other than the bundled ones; every grid also built through load_prediction_model; full-product lattices up to four dimensions.",
+    "C15": " Also: each of the two optional counts given or scanned (four modes), through Graph::from_files and DefaultGraphBuilder.",
+    "C16": " Also: both matchers built by their builders from configuration values; tolerances written without a unit (metres) and a unit without a tolerance; generated edge sets of 7-14 records in four geometry shapes.",
+    "C17": " Also: options that are, contain or mention a grid section (exact key at the top of an option, deeper, inside an array, as a string, as part of a key) at every position among ordinary options - refusal or a clean expansion without a grid section are accepted.",
+    "C19": " Also: one-column CSV mappings whose unresolved cell is the empty row (counted as a record), mixed-case sorted and unsorted mappings, batches of queries failing in an input plugin.",
+    "C20": " Also: uuid tables plain and gzip with an empty middle row, the destination-less query in every format.",
+}
+
 NOT_YET = "check not built yet in this session (planned, see DESIGN.md §4)"
 
 def main():
@@ -85,7 +105,7 @@ def main():
             "evidence_file": "/verif/evidence/%s.json" % pid,
             "replay_cmd_template": "./check %s --replay {path}" % pid,
             "engine": eng,
-            "level_claimed": {"category": "model_checking", "text": text, "design_ref": ref},
+            "level_claimed": {"category": "model_checking", "text": text + ADDED.get(pid, ""), "design_ref": ref},
             "level_note": note,
             "technique": tech,
         })
